@@ -42,7 +42,7 @@ CHECKS.update({
         technique='TLC model checking of Interleave_MC (all pairs/triples of per-thread programs x ALL interleavings, '
                   'invariant log[t] = Solo(prefix), negative control with the parser-wide slot); every exported '
                   'schedule replayed on TracesParser; random programs: interleaved vs solo runs of the code and '
-                  'validation of interleaved runs against Pairing!Step in TLC',
+                  'validation of interleaved runs against Pairing!Step in TLC (relational: a deviation counts only when the same programs run alone do not deviate)',
         text='All interleavings inside the bounds are explored on the design (where the parser-wide slot defect shows '
              'as a 3-step counterexample), every explored schedule is replayed on the code, and richer random programs '
              'over all decoder families are compared solo vs interleaved.',
@@ -265,7 +265,7 @@ def main():
         }],
         'checks': checks,
         'not_applicable': na,
-        'notes': 'exit 0 held / exit 1 VIOLATION / exit 2 machinery failure. VERIF_SEED and VERIF_TIER honoured. '
+        'notes': 'exit 0 held / exit 1 VIOLATION / exit 2 machinery failure (an exception escaping from the package under test is a VIOLATION). VERIF_SEED and VERIF_TIER honoured. Each check reports the clauses its own statement pins (DESIGN.md 2.1, clause ownership). '
                  'known findings: known_findings.json.',
     }
     with open(os.path.join(VERIF, 'MANIFEST.json'), 'w') as f:
